@@ -1,29 +1,46 @@
 CHECK = {
     "suites": [suite("tracker", "c06", 20000, 250000, stdin=True, args=["-mode", "t"]),
-               suite("global", "c06", 5000, 50000, stdin=True, args=["-mode", "g"])],
+               suite("global", "c06", 5000, 50000, stdin=True, args=["-mode", "g"]),
+               suite("faults", "c06", 6000, 80000, stdin=True, args=["-mode", "tf"]),
+               suite("recover", "c06", 2500, 30000, stdin=True, args=["-mode", "tr"])],
     "gen": [{"pkg": "extract_c06", "out": "lean/ClusterVerif/Gen/C06.lean"}],
     "lean_sources": ["ClusterVerif/Model/C06.lean", "ClusterVerif/Spec/C06.lean", "ClusterVerif/Lemmas/C06.lean",
-                     "ClusterVerif/Gen/C06.lean"],
+                     "ClusterVerif/Lemmas/C06F.lean", "ClusterVerif/Gen/C06.lean"],
     "rule": "tracker cases = (this peer, 0-9 CIDs each with a pinset entry (absent/meta/allocated elsewhere/here/everywhere, recursive or direct), "
             "what the daemon holds (unpinned/direct/recursive/indirect), the last operation and its phase; filter 0, the 12 single statuses, bit 0, the "
             "composites and random unions incl. bits above 2^13); global cases = member list (reachable/unreachable/refusing peers), pinset entry, "
-            "per-peer replies; one splitmix64 stream per case index; non-trivial = non-empty universe with the daemon answering / non-follower; distinct by case line",
-    "trusted_base": ["scripted IPFSConnector RPC service stands in for ipfshttp (PinLsCid asks for the pin's own type, PinLs(type) lists that type)",
+            "per-peer replies, plus a fault stream (consensus.Peers / state failing, a member that never answers, a member answering about another cid, "
+            "repeated or missing list entries); faults cases = a tracker case + a fault stream (half none, else 1-2 of getState, State.List at once or mid-way "
+            "through the real dsstate, PinLs direct / recursive, State.Get of a cid, PinLsCid of a cid) + an answer stream (1 in 6: arbitrary type-string classes "
+            "per cid incl. unknown strings), PinInfo bits of both views; recover cases = a tracker case, Recover on every cid or RecoverAll, views read before "
+            "and right after; the fault distribution is the arm histogram (f-*, unknown-type, incoherent-daemon, g?-peers-fails, g?-timeout, ...); "
+            "one splitmix64 stream per case index; non-trivial = non-empty universe with the daemon answering / non-follower; distinct by case line",
+    "trusted_base": ["scripted IPFSConnector RPC service stands in for ipfshttp (PinLsCid asks for the pin's own type, PinLs(type) lists that type; it keeps type "
+                     "strings and turns them into statuses with the real IPFSPinStatusFromString; scripted failures per call)",
+                     "faulty datastore under the real dsstate (Query fails at once or yields an error result mid-way), State.Get wrapper failing for chosen cids",
                      "fake consensus (Peers, State) behind the real Cluster; member trackers answer canned replies over real gorpc/libp2p loopback streams",
                      "verif_export.go wrapper VerifNewCluster"],
     "assumptions": ["quiescent = the last operation of a CID is the one the pinset calls for and the daemon answers pin/ls",
                     "the tracker's OperationRemote (housekeeping unpin for pins allocated elsewhere) is not a 'last pin or unpin' of the statement",
-                    "a member's reply carries its own peer ID"],
+                    "a member's reply carries its own peer ID",
+                    "a listing that is empty in a case with a fault on the listing's path reports that failure (StatusAll has no error return)",
+                    "agreement, the truth clauses and the filter law are read for daemon answers that come from some IPFS pin set; 'pinned needs the daemon's "
+                    "confirmation', fault reporting, well-formedness and the PinInfo clauses for every answer"],
 }
 META = {
     "text": "Kernel-checked theorems over an executable model of Status/StatusAll/localStatus/ipfsStatusAll, Operation.ToTrackerStatus, Match and "
             "globalPinInfoCid/Slice: the filter law statusAll f = (statusAll 0).filter (match f) for every natural-number filter; both views truthful "
             "and equal on every CID except the recorded K02 situation (where both are error statuses); each peer at most once in the cluster-wide maps, "
-            "allocated peers with their report or cluster_error, other members remote. The model is tied to today's code by running the real tracker "
+            "allocated peers with their report or cluster_error, other members remote. Round 7: the same views with every resource failing (getState, "
+            "State.List also mid-way, State.Get, PinLs, PinLsCid, consensus.Peers, member calls) - agreement or a reported fault, nothing pinned without the "
+            "daemon's confirmation, listings all-or-nothing, failed members marked cluster_error in every listed CID; the filter law for every daemon answer that "
+            "is a pinned type and its refutation for unknown type strings; IPFSPinStatusFromString / IsPinned regenerated; error text iff error status (except the "
+            "recorded K06e); Recover / RecoverAll answers equal the views read right after. The model is tied to today's code by running the real tracker "
             "(real dsstate, real operation tracker, scripted daemon) and the real Cluster.Status/StatusAll (real gorpc over loopback libp2p hosts) on "
             "thousands of seeded cases and checking (a) the model reproduces every observation and (b) the Lean property checker on the real outputs; "
             "status constants and the two translation tables are regenerated from the linked packages on every run.",
     "note": "Trusted: Lean kernel (+propext, Classical.choice, Quot.sound), hand-written model/spec, the Go harness with its scripted daemon and canned "
-            "member replies. Known finding K02 (Status says pin_error where StatusAll says unexpectedly_unpinned) is reported as KNOWN-FINDING.",
+            "member replies. Known findings K02/K02f (Status says pin_error where StatusAll says unexpectedly_unpinned), K04 (unreachable member cluster_error for every "
+            "listed CID), K06e/K06r (status remote with an error text after a failed housekeeping unpin) are reported as KNOWN-FINDING.",
     "technique": "Lean 4 theorems over a functional model + generated constant tables + differential correspondence with the real tracker and Cluster",
 }
